@@ -441,7 +441,13 @@ func c20Eval(c *Ctx) func(cs []*C20Case) []c20Obs {
 				names = append(names, n)
 			}
 			gen := w.GenAll(names, GenOpts{})
-			chk := w.GenAll(names, GenOpts{Cmd: "check", ForceSingle: func(stderr string) bool {
+			var loaded []string
+			for _, n := range names {
+				if g := gen[n]; g != nil && g.Status != "loaderr" {
+					loaded = append(loaded, n)
+				}
+			}
+			chk := w.GenAll(loaded, GenOpts{Cmd: "check", ForceSingle: func(stderr string) bool {
 				for _, line := range strings.Split(stderr, "\n") {
 					if strings.HasPrefix(line, "wire: ") && line != "wire: error loading packages" && !HasPosition(line, w.Dir) {
 						return true
